@@ -895,7 +895,7 @@ def run(ctx):
     prefix = os.path.join(d, "states")
     cfg = "MC.cfg" if quick else "MC_thorough.cfg"
     res = ctx.tlc("MCPerception", cfg, stage="S1", dump=prefix, workers=16,
-                  timeout=900 if quick else 3000)
+                  timeout=1800 if quick else 14400)
     ctx.exhaustive = True
     path = prefix + ".dump" if os.path.exists(prefix + ".dump") else prefix
     items, nstates = _split_dump(path, 200 if quick else 1200)
